@@ -186,6 +186,54 @@ def run(ctx):
             ctx.violation("impl-violation", f"result depends on calls made earlier in the same process: {d}", cfg, {"site": "memo-pollution"})
         ctx.case(("memo", repr(sorted(cfg.items()))), nontrivial=True)
 
+    # ---------------- the whole ACCEPTED call surface: if a front end takes arbitrary keywords (**kwargs: aliases, legacy
+    # spellings, pass-through options), every keyword name its module mentions is tried with a few values; a call that is
+    # accepted must give the same result when it is made again, and the same result as in a fresh process
+    import ast
+    import inspect
+    from fast_ticc import front_end as fe_mod
+    takes_kw = [f for f in (fast_ticc.ticc_labels, fast_ticc.ticc_joint_labels)
+                if any(p_.kind is inspect.Parameter.VAR_KEYWORD for p_ in inspect.signature(f).parameters.values())]
+    ctx.count("front_ends_taking_arbitrary_keywords", len(takes_kw))
+    if takes_kw and ctx.replay is None:
+        try:
+            tree = ast.parse(inspect.getsource(fe_mod))
+            known_params = set()
+            for f in (fast_ticc.ticc_labels, fast_ticc.ticc_joint_labels):
+                known_params |= set(inspect.signature(f).parameters)
+            cand = sorted({n_.value for n_ in ast.walk(tree) if isinstance(n_, ast.Constant) and isinstance(n_.value, str)
+                           and n_.value.isidentifier() and n_.value not in known_params and len(n_.value) <= 40})
+        except (OSError, SyntaxError):
+            cand = []
+        base = tu.gen_config(ctx.rng, joint=False)
+        for k_ in ("dtype", "completion", "flat", "logging", "beta_form"):
+            base.pop(k_, None)
+        base.update({"K": 2, "W": 2, "N": 2, "limit": 3, "lens": [1 + 90], "beta": 5.0, "lam": 0.11})
+        data0 = tu.config_data(base)[0]
+
+        def kwcall(extra):
+            tu.seed_all(base["seed"])
+            try:
+                with tu.quiet(), warnings.catch_warnings():
+                    warnings.simplefilter("ignore")
+                    return tu.result_fields(fast_ticc.ticc_labels(np.array(data0, copy=True), **dict(tu.config_kwargs(base), **extra)))
+            except Exception as e:
+                return ("raised", type(e).__name__, str(e)[:80])
+        for name in cand[:60]:
+            for val in (3.0, 2, True):
+                first = kwcall({name: val})
+                if isinstance(first, tuple):
+                    continue                      # not an accepted keyword / value: nothing to compare
+                ctx.count("extra_keywords_accepted")
+                again = kwcall({name: val})
+                other = kwcall({name: val})
+                if again != first or other != first:
+                    ctx.violation("impl-violation", f"ticc_labels(..., {name}={val!r}) returns a different result when the same call is made "
+                                  "again in the same process", dict(base, extra_keyword=name, extra_value=repr(val)),
+                                  {"site": "reproducible", "cause": "extra-keyword"})
+                    break
+                ctx.case(("extra-keyword", name, repr(val)), nontrivial=True)
+
     # memo tables hold exactly what the un-memoised helpers compute
     bad = 0
     for mod in (uv, mc):
